@@ -49,6 +49,13 @@ func init() {
 	reg("(time.Time).Unix", func(g *G, fr *Frame, fn *ssa.Function, a []Value) Value {
 		return mkInt(BVBin("bvsdiv", timeExt(g, a[0]).Term(64), BVConst(1000000000, 64)))
 	})
+	reg("time.Unix", func(g *G, fr *Frame, fn *ssa.Function, a []Value) Value {
+		sec, ns := a[0].(Int).Term(64), a[1].(Int).Term(64)
+		return g.timeVal(mkInt(BVBin("bvadd", BVBin("bvmul", sec, BVConst(1000000000, 64)), ns)))
+	})
+	reg("time.UnixMilli", func(g *G, fr *Frame, fn *ssa.Function, a []Value) Value {
+		return g.timeVal(mkInt(BVBin("bvmul", a[0].(Int).Term(64), BVConst(1000000, 64))))
+	})
 	reg("time.Until", func(g *G, fr *Frame, fn *ssa.Function, a []Value) Value {
 		return mkInt(BVBin("bvsub", timeExt(g, a[0]).Term(64), BVConst(uint64(g.run.clock), 64)))
 	})
